@@ -235,7 +235,7 @@ func plan(seed int64, tier string) []vrt.Case {
 	// user or an archiving tool would), and the remote station using exactly those - ordinary - identifiers
 	li := 0
 	var linked []mboxkit.Op
-	for _, target := range []string{"/abs/x.b2f", "/l1/decoy.b2f", "../../x.b2f", "../../../other/in/x.b2f", "/etc/passwd", "/abs/empty.b2f", "/l1/l2/l3/l4/l5/l6/link.b2f", "/abs/not-there-yet.b2f"} {
+	for _, target := range []string{"/abs/x.b2f", "/l1/decoy.b2f", "../../x.b2f", "../../../other/in/x.b2f", "/etc/passwd", "/abs/empty.b2f", "/l1/l2/l3/l4/l5/l6/link.b2f", "/abs/not-there-yet.b2f", "hard:/abs/x.b2f", "hard:/l1/decoy.b2f"} {
 		for _, k := range []struct{ folder, kind string }{{"in", "ProcessInbound"}, {"in", "ProcessInbound(parsed)"}, {"in", "GetInboundAnswer"}, {"in", "session"}, {"out", "SetSent"}, {"out", "SetDeferred"}, {"in", "batch-good-baddate-hostile"}} {
 			li++
 			mid := fmt.Sprintf("LINKED%06d", li)
